@@ -3,7 +3,7 @@
 //! `RepartitionExec` is constructed directly over a scripted multi-partition source (module
 //! `source`: batch cuts incl. empty batches, `Pending` jitter) and its outputs are consumed by the
 //! harness: on a current-thread runtime in a *generated order* (one `next()` at a time on the
-//! chosen output, so the task interleaving is a function of the case), or on a 2/8-worker runtime
+//! chosen output, so the task interleaving is a function of the case), or on a 2/4-worker runtime
 //! with one draining task per output. Some outputs are dropped early (after k batches, k ≥ 0).
 //!
 //! Domain: 1–5 inputs × 0–12 rows (quick) with 1–3 key columns (Int32/Int64/Utf8/LargeUtf8/
@@ -29,7 +29,7 @@
 //!  3. `preserve_order`: every output (also a partially read one) is sorted by the declared ordering.
 //!
 //! Outcomes: `ResourcesExhausted` under a memory limit = inconclusive; a `next()` that does not
-//! return within 10 s / a run over 30 s = inconclusive; any other error = violation.
+//! return within 6 s / a run over 30 s = inconclusive; any other error = violation.
 //! Non-trivial: ≥ 2 inputs, ≥ 2 outputs, ≥ 2 outputs received rows. Spill cases are labelled from
 //! `SpillMetrics` (`spilled`).
 //!
@@ -58,6 +58,9 @@ use std::time::Duration;
 use vf_kit::engine::*;
 
 pub struct C10;
+
+/// a single `next()` on an output that takes longer than this is reported as a stall
+const POLL_TIMEOUT_S: u64 = 6;
 
 #[derive(Clone, Debug, Serialize, Deserialize)]
 pub struct InputSpec {
@@ -139,8 +142,15 @@ fn case_strategy(tier: Tier) -> BoxedStrategy<Case> {
     let max_rows = tier.pick(12usize, 60usize);
     let hash_ty = prop::sample::select(vec![Ty::I32, Ty::I64, Ty::Utf8, Ty::LargeUtf8, Ty::Utf8View, Ty::Bool]);
     let range_ty = prop::sample::select(vec![Ty::I32, Ty::I64, Ty::Utf8, Ty::I32, Ty::Utf8View]);
-    // 0 hash, 1 range, 2 round robin
-    (prop::sample::select(vec![0u8, 0, 1, 1, 2]), prop::collection::vec(hash_ty, 1..=3), prop::collection::vec(range_ty, 1..=2))
+    // 0 hash, 1 range, 2 round robin. Probe aid (default off): VF_C10_SCHEME=hash|range|rr restricts
+    // generation to one scheme so that several single-scheme mutations can share one mutated build.
+    let kinds = match std::env::var("VF_C10_SCHEME").ok().as_deref() {
+        Some("hash") => vec![0u8],
+        Some("range") => vec![1u8],
+        Some("rr") => vec![2u8],
+        _ => vec![0u8, 0, 1, 1, 2],
+    };
+    (prop::sample::select(kinds), prop::collection::vec(hash_ty, 1..=3), prop::collection::vec(range_ty, 1..=2))
         .prop_flat_map(move |(kind, hash_types, range_types)| {
             let types = if kind == 1 { range_types } else { hash_types };
             let nk = types.len();
@@ -157,8 +167,8 @@ fn case_strategy(tier: Tier) -> BoxedStrategy<Case> {
             };
             let input = (prop::collection::vec(row_of(&types), 0..=max_rows), prop::collection::vec(any::<u16>(), 0..5), prop::collection::vec(0u8..3, 0..3)).prop_map(|(rows, cuts, pend)| InputSpec { rows, cuts, pend });
             let mem = prop_oneof![
-                3 => Just(None),
-                2 => (prop::sample::select(vec![0u32, 1, 300, 2000, 100000]), prop::sample::select(vec![PoolKind::Greedy, PoolKind::Fair])).prop_map(Some),
+                tier.pick(4, 3) => Just(None),
+                tier.pick(1, 2) => (prop::sample::select(vec![0u32, 1, 300, 2000, 100000]), prop::sample::select(vec![PoolKind::Greedy, PoolKind::Fair])).prop_map(Some),
             ];
             (
                 (Just(types), prop::collection::vec(input, 1..=5), scheme, prop::bool::weighted(0.3), prop::collection::vec((any::<bool>(), any::<bool>()), 3)),
@@ -168,7 +178,7 @@ fn case_strategy(tier: Tier) -> BoxedStrategy<Case> {
                     prop::option::weighted(0.3, prop::sample::select(vec![1u32, 400])),
                     prop_oneof![3 => Just(vec![]), 2 => prop::collection::vec((any::<u16>(), 0u8..4), 1..4)],
                     prop::collection::vec(any::<u16>(), 0..24),
-                    prop::sample::select(vec![0u8, 0, 0, 2, 8]),
+                    prop::sample::select(vec![0u8, 0, 0, 0, 2, 2, 4]),
                 ),
             )
                 .prop_map(|((key_types, inputs, scheme, preserve_order, order), (batch_size, mem, max_spill_file, drops, schedule, threads))| Case {
@@ -248,8 +258,8 @@ async fn drive_scheduled(mut streams: Vec<Option<datafusion_execution::SendableR
             active.remove(pick);
             continue;
         };
-        match tokio::time::timeout(Duration::from_secs(10), s.next()).await {
-            Err(_) => return Err(Fail::Timeout(format!("output {o} did not answer within 10 s"))),
+        match tokio::time::timeout(Duration::from_secs(POLL_TIMEOUT_S), s.next()).await {
+            Err(_) => return Err(Fail::Timeout(format!("output {o} did not answer within {POLL_TIMEOUT_S} s"))),
             Ok(None) => {
                 reads[o].finished = true;
                 streams[o] = None;
@@ -281,8 +291,8 @@ async fn drive_tasks(streams: Vec<Option<datafusion_execution::SendableRecordBat
                 return Ok(read);
             }
             loop {
-                match tokio::time::timeout(Duration::from_secs(10), s.next()).await {
-                    Err(_) => return Err(Fail::Timeout(format!("output {o} did not answer within 10 s"))),
+                match tokio::time::timeout(Duration::from_secs(POLL_TIMEOUT_S), s.next()).await {
+                    Err(_) => return Err(Fail::Timeout(format!("output {o} did not answer within {POLL_TIMEOUT_S} s"))),
                     Ok(None) => {
                         read.finished = true;
                         return Ok(read);
@@ -328,7 +338,8 @@ impl Property for C10 {
         case_strategy(tier)
     }
     fn budget(&self, tier: Tier) -> Budget {
-        Budget::new(tier.pick(3_000, 200_000), tier.pick(8, 16)).min_nontrivial(tier.pick(400, 30_000)).case_timeout(90)
+        let cases = std::env::var("VF_CASES").ok().and_then(|v| v.parse().ok()).unwrap_or(tier.pick(1_500, 120_000));
+        Budget::new(cases, tier.pick(8, 16)).min_nontrivial(tier.pick(250, 20_000)).case_timeout(90)
     }
     fn rule(&self) -> String {
         "1-5 scripted input partitions (0-12 rows quick / 0-60 thorough, NULL/duplicate keys, cuts, jitter) x Hash/Range/RoundRobin x 1-8 outputs x preserve_order x batch size x memory limit (spill) x early drops x generated consumption order or multi-thread; \
@@ -343,7 +354,12 @@ impl Property for C10 {
         ]
     }
     fn run(&self, case: &Case) -> CaseResult {
-        run_case(case)
+        let t0 = std::time::Instant::now();
+        let r = run_case(case);
+        if std::env::var_os("VF_JOIN_SLOW").is_some() && t0.elapsed().as_millis() > 500 {
+            eprintln!("SLOW {} ms: {:?} scheme={:?} threads={} mem={:?} preserve={} inputs={} drops={:?}", t0.elapsed().as_millis(), r.outcome, case.scheme, case.threads, case.mem, case.preserve_order, case.inputs.len(), case.drops);
+        }
+        r
     }
     fn known_signature(&self, case: &Case) -> Option<String> {
         known_shape(case)
